@@ -43,6 +43,17 @@ fn msg(conn: usize, dir: usize, idx: usize, size: usize) -> Call<Method> {
     Call::new(Method::Put { name: body(conn, dir, idx, size), value: idx as u64 })
 }
 
+/// The abstract-namespace address of a case that asks for one (unique per process and case).
+fn abstract_addr_of(case: &Value) -> Option<std::os::unix::net::SocketAddr> {
+    use std::os::linux::net::SocketAddrExt;
+    if case["abstract"].as_bool().unwrap_or(false) {
+        let name = format!("zv-c19-{}-{}", std::process::id(), case["id"]);
+        Some(std::os::unix::net::SocketAddr::from_abstract_name(name.as_bytes()).unwrap())
+    } else {
+        None
+    }
+}
+
 type Sleep = fn(Duration) -> Pin<Box<dyn Future<Output = ()>>>;
 
 async fn writer<W: WriteHalf>(mut w: WriteConnection<W>, conn: usize, dir: usize, sizes: Vec<usize>, pipeline: bool) -> Result<(), String> {
@@ -168,7 +179,16 @@ mod tk {
             let delay_s = case["server_delay_ms"].as_u64().unwrap_or(0);
             let delay_c = case["client_delay_ms"].as_u64().unwrap_or(0);
             let pipeline = case["pipeline"].as_bool().unwrap_or(false);
-            let mut listener = if case["from_fd"].as_bool().unwrap_or(false) {
+            // "abstract": the inherited listener lives in the Linux abstract namespace (no pathname)
+            let abstract_addr = abstract_addr_of(case);
+            let mut listener = if let Some(a) = &abstract_addr {
+                let l = StdListener::bind_addr(a).unwrap();
+                let fd: OwnedFd = l.into();
+                match zlink_tokio::unix::Listener::try_from(fd) {
+                    Ok(l) => l,
+                    Err(e) => return json!({"listener_error": format!("{e:?}")}),
+                }
+            } else if case["from_fd"].as_bool().unwrap_or(false) {
                 let l = StdListener::bind(&path).unwrap();
                 let fd: OwnedFd = l.into();
                 zlink_tokio::unix::Listener::try_from(fd).unwrap()
@@ -179,7 +199,18 @@ mod tk {
             let mut ids = Vec::new();
             for c in 0..conns {
                 let p = path.clone();
-                let client = tokio::task::spawn_local(async move { zlink_tokio::unix::connect(&p).await.unwrap() });
+                let aa = abstract_addr.clone();
+                let client = tokio::task::spawn_local(async move {
+                    match aa {
+                        Some(a) => {
+                            let st = StdStream::connect_addr(&a).unwrap();
+                            st.set_nonblocking(true).unwrap();
+                            let st = tokio::net::UnixStream::from_std(st).unwrap();
+                            Connection::new(zlink_tokio::unix::Stream::from(st))
+                        }
+                        None => zlink_tokio::unix::connect(&p).await.unwrap(),
+                    }
+                });
                 let sconn = listener.accept().await.unwrap();
                 let cconn = client.await.unwrap();
                 ids.push(sconn.id());
@@ -342,7 +373,15 @@ mod sm {
             let delay_s = case["server_delay_ms"].as_u64().unwrap_or(0);
             let delay_c = case["client_delay_ms"].as_u64().unwrap_or(0);
             let pipeline = case["pipeline"].as_bool().unwrap_or(false);
-            let mut listener = if case["from_fd"].as_bool().unwrap_or(false) {
+            let abstract_addr = abstract_addr_of(case);
+            let mut listener = if let Some(a) = &abstract_addr {
+                let l = StdListener::bind_addr(a).unwrap();
+                let fd: OwnedFd = l.into();
+                match zlink_smol::unix::Listener::try_from(fd) {
+                    Ok(l) => l,
+                    Err(e) => return json!({"listener_error": format!("{e:?}")}),
+                }
+            } else if case["from_fd"].as_bool().unwrap_or(false) {
                 let l = StdListener::bind(&path).unwrap();
                 let fd: OwnedFd = l.into();
                 zlink_smol::unix::Listener::try_from(fd).unwrap()
@@ -354,7 +393,17 @@ mod sm {
             let mut ids = Vec::new();
             for c in 0..conns {
                 let p = path.clone();
-                let client = ex.spawn(async move { zlink_smol::unix::connect(&p).await.unwrap() });
+                let aa = abstract_addr.clone();
+                let client = ex.spawn(async move {
+                    match aa {
+                        Some(a) => {
+                            let st = StdStream::connect_addr(&a).unwrap();
+                            let st = smol::Async::new(st).unwrap();
+                            Connection::new(zlink_smol::unix::Stream::from(st))
+                        }
+                        None => zlink_smol::unix::connect(&p).await.unwrap(),
+                    }
+                });
                 let sconn = listener.accept().await.unwrap();
                 let cconn = client.await;
                 ids.push(sconn.id());
